@@ -82,6 +82,12 @@ func verifDo(req *http.Request) (*http.Response, error) {
 			elems[i] = map[string]interface{}{"data": map[string]interface{}{"tag": ins[i].Query}}
 		}
 		b, _ := json.Marshal(elems)
+		if req.Header.Get("Accept-Encoding") != "" {
+			// the service (or the web server in front of it) compresses when the client says it accepts that.
+			// net/http inflates an answer only when its transport added the header itself; a caller that sets
+			// Accept-Encoding gets the bytes as they came
+			return &http.Response{StatusCode: 200, Header: http.Header{"Content-Encoding": []string{"gzip"}}, Body: &vPadBody{data: []byte("\x1f\x8b\x08 compressed bytes")}}, nil
+		}
 		return &http.Response{StatusCode: 200, Body: &vPadBody{data: b, pad: v9Pad}}, nil
 	}
 	if verifChoice("transport", 2) == 1 {
